@@ -681,10 +681,13 @@ pub fn context_of(recs: &[Rec]) -> Ctx {
     ctx.unwrap_or(Ctx::Unmapped)
 }
 
-fn check_ctx(what: &str, ref_id: i32, start: i32, span: i32, want: &Ctx, strict_multi: bool) -> Result<(), WalkErr> {
+/// A header that says "multiple references" (−2) is accepted on any content: the records then carry
+/// their own reference ids (RI series), which is legal if wasteful. The converse is not: a header that
+/// names a reference or says "unmapped" must be true for every record.
+fn check_ctx(what: &str, ref_id: i32, start: i32, span: i32, want: &Ctx, _strict_multi: bool) -> Result<(), WalkErr> {
     match want {
         Ctx::Single { rid, start: s, end_lo, end_hi } => {
-            if ref_id == -2 && !strict_multi {
+            if ref_id == -2 {
                 return Ok(());
             }
             if ref_id != *rid as i32 {
@@ -703,7 +706,7 @@ fn check_ctx(what: &str, ref_id: i32, start: i32, span: i32, want: &Ctx, strict_
             Ok(())
         }
         Ctx::Unmapped => {
-            if ref_id != -1 && !(ref_id == -2 && !strict_multi) {
+            if ref_id != -1 && ref_id != -2 {
                 return err(&format!("{what}-reference-id"), format!("header {ref_id}, records are all unplaced"));
             }
             Ok(())
@@ -770,6 +773,23 @@ pub fn check_against_records(w: &Walked, recs: &[Rec], refs: &[RefSeq]) -> Resul
         }
     }
     Ok(())
+}
+
+/// Number of slices whose header says "multiple references" although all their records lie on one
+/// reference (or are all unplaced) — legal, counted for the evidence.
+pub fn loose_multi_slices(w: &Walked, recs: &[Rec]) -> usize {
+    let mut i = 0usize;
+    let mut n = 0;
+    for c in &w.containers {
+        for s in &c.slices {
+            let k = (s.n_records as usize).min(recs.len() - i);
+            if s.ref_id == -2 && context_of(&recs[i..i + k]) != Ctx::Multi {
+                n += 1;
+            }
+            i += k;
+        }
+    }
+    n
 }
 
 /// One expected CRAI entry, computed without noodles.
